@@ -72,6 +72,23 @@ Definition child_share (p total : res) (parentP : res) : res :=
 Inductive qres (A : Type) := QVal (a : A) | QCrash.
 Arguments QVal {A} a. Arguments QCrash {A}.
 
+(* second loop of getChildQueuesPreemptableResource for one child: a leaf gets its share, a parent distributes its
+   share further down ([rec] is the recursive call) *)
+Definition dist_step (rec : queue -> ores -> qres (list (N * res))) (total pp : res)
+           (acc : qres (list (N * res))) (cp : queue * res) : qres (list (N * res)) :=
+  match acc with
+  | QCrash => QCrash
+  | QVal l =>
+      let cp' := child_share (snd cp) total pp in
+      if q_leaf (fst cp) then QVal (l ++ [(q_id (fst cp), cp')])
+      else match rec (fst cp) (Some cp') with
+           | QCrash => QCrash
+           | QVal l' => QVal (l ++ l')
+           end
+  end.
+Definition excess_children (w : world) (q : queue) : list (queue * res) :=
+  flat_map (fun c => match child_excess c with Some p => [(c, p)] | None => [] end) (children w q).
+
 (* result: the leaf queues with their share of the preemptable resource.
    [pinned] selects the code before the commit "fix: quota preemption of a parent queue panicked when its usage
    above the max was already being preempted" (a nil parentPreemptableResource was dereferenced) *)
@@ -79,26 +96,15 @@ Fixpoint distributeF (pinned : bool) (fuel : nat) (w : world) (q : queue) (paren
   match fuel with
   | O => QVal []
   | S f =>
-      let cs := flat_map (fun c => match child_excess c with Some p => [(c, p)] | None => [] end) (children w q) in
-      match cs with
+      match excess_children w q with
       | [] => QVal []
-      | _ =>
+      | cs =>
           match parentP with
           | None => if pinned then QCrash  (* parentPreemptableResource.Resources on a nil pointer *)
                     else QVal []           (* nothing to distribute *)
           | Some pp =>
               let total := fold_left (fun t cp => addTo t (snd cp)) cs [] in
-              fold_left (fun acc cp =>
-                           match acc with
-                           | QCrash => QCrash
-                           | QVal l =>
-                               let cp' := child_share (snd cp) total pp in
-                               if q_leaf (fst cp) then QVal (l ++ [(q_id (fst cp), cp')])
-                               else match distributeF pinned f w (fst cp) (Some cp') with
-                                    | QCrash => QCrash
-                                    | QVal l' => QVal (l ++ l')
-                                    end
-                           end) cs (QVal [])
+              fold_left (dist_step (distributeF pinned f w) total pp) cs (QVal [])
           end
       end
   end.
